@@ -973,6 +973,22 @@ func genC04(r *simrt.Rand, tier string) any {
 		keep := append([]Op(nil), sc.Ops...)
 		genIOFaults(r, sc)
 		copy(sc.Ops, keep) // keep the CREATE operations: their faulted outcome is judged loosely here
+		if r.Pct(50) {
+			// motif: a SETATTR that sets size AND mode fails between its steps (the truncate done, the chmod
+			// not), then the object is looked at through its directory and through its own handle
+			fh := sh.handleOf(mFile)
+			fp := sh.hpath[fh]
+			dh := 0
+			for i, hp := range sh.hpath {
+				if hp == pathDir(fp) {
+					dh = i
+				}
+			}
+			sz, md := uint64(r.Int(50)), uint32(r.Int(0o1000))
+			sc.Faults = append(sc.Faults, simfs.Fault{Op: []string{"Chmod", "Chown", "Chtimes"}[r.Int(3)], Nth: 1 + r.Int(2), Kind: "eio"})
+			sc.Ops = append(sc.Ops, Op{Op: "LOOKUP", H: dh, Name: fp[strings.LastIndexByte(fp, '/')+1:]}, Op{Op: "SETATTR", H: fh, SA: SA{Size: &sz, Mode: &md, Mtime: 1}},
+				Op{Op: "LOOKUP", H: dh, Name: fp[strings.LastIndexByte(fp, '/')+1:]}, Op{Op: "GETATTR", H: fh}, Op{Op: "READDIRPLUS", H: dh, Count: 8192})
+		}
 	}
 	return sc
 }
@@ -1230,6 +1246,12 @@ func genSA(r *simrt.Rand) SA {
 	if r.Pct(50) {
 		v := ids[r.Int(len(ids))]
 		sa.GID = &v
+	}
+	if r.Pct(30) {
+		sa.Mtime = uint32(1 + r.Int(2)) // set to server time / to the client's time: one more backend step after the chown
+	}
+	if r.Pct(15) {
+		sa.Atime = uint32(1 + r.Int(2))
 	}
 	return sa
 }
